@@ -9,7 +9,7 @@ from ..engine import rule
 from ..cxx_ir import CALL_KINDS, CTOR_KINDS, LOOP_KINDS
 from ..cfg import cfg_of, switch_arms
 from ..effects import PY, NEWREF, STEALS, external_effects
-from ..py_frontend import call_name, calls_under, walk, is_name, src
+from ..py_frontend import call_name, calls_under, walk, is_name, src, param_names
 from .common import (short, inst, live_funcs, calls_in, callee_func, member_path, enclosing_map,
                      ancestors, kind_switches, strip_casts)
 from .locks import regions, _callers_hold
@@ -347,23 +347,42 @@ def f10(ctx):
               'accessors, leaves and treespec all come from one _C.flatten call',
               'tree_flatten_with_accessor does not return (treespec.accessors(), leaves, treespec) '
               'of a single flatten', mod.loc(fn))
-    table = {'tree_paths': r'_C\.flatten_with_path\(tree, is_leaf, none_is_leaf, namespace\)\[0\]',
-             'tree_leaves': r'_C\.flatten\(tree, is_leaf, none_is_leaf, namespace\)\[0\]',
-             'tree_structure': r'_C\.flatten\(tree, is_leaf, none_is_leaf, namespace\)\[1\]',
-             'tree_accessors': r'_C\.flatten\(tree, is_leaf, none_is_leaf, namespace\)\[1\]\.accessors\(\)',
-             'tree_flatten': r'_C\.flatten\(tree, is_leaf, none_is_leaf, namespace\)',
-             'tree_flatten_with_path': r'_C\.flatten_with_path\(tree, is_leaf, none_is_leaf, namespace\)',
-             'tree_iter': r'_C\.PyTreeIter\(tree, is_leaf, none_is_leaf, namespace\)',
-             'tree_is_leaf': r'_C\.is_leaf\(tree, is_leaf, none_is_leaf, namespace\)',
-             'all_leaves': r'_C\.all_leaves\(iterable, is_leaf, none_is_leaf, namespace\)'}
-    for name, rx in table.items():
+    table = {'tree_paths': ('flatten_with_path', 0, None), 'tree_leaves': ('flatten', 0, None),
+             'tree_structure': ('flatten', 1, None), 'tree_accessors': ('flatten', 1, 'accessors'),
+             'tree_flatten': ('flatten', None, None),
+             'tree_flatten_with_path': ('flatten_with_path', None, None),
+             'tree_iter': ('PyTreeIter', None, None), 'tree_is_leaf': ('is_leaf', None, None),
+             'all_leaves': ('all_leaves', None, None)}
+    for name, (entry, index, method) in table.items():
         fn = mod.func(name)
-        ret = [s for s in walk(fn) if isinstance(s, ast.Return)]
-        ok = len(ret) == 1 and re.fullmatch(rx, src(ret[0].value)) is not None and len(fn.body) <= 2
+        ret = [s_ for s_ in walk(fn) if isinstance(s_, ast.Return)]
+        ctx.require(len(ret) == 1 and ret[0].value is not None, '%s: not a single-return wrapper' % name)
+        e = ret[0].value
+        got_method = None
+        if isinstance(e, ast.Call) and isinstance(e.func, ast.Attribute) and \
+                isinstance(e.func.value, (ast.Subscript, ast.Call)):
+            got_method = e.func.attr
+            ctx.require(not e.args and not e.keywords, '%s: unexpected arguments to .%s()' % (name, got_method))
+            e = e.func.value
+        got_index = None
+        if isinstance(e, ast.Subscript):
+            ctx.require(isinstance(e.slice, ast.Constant), '%s: non-constant result index' % name)
+            got_index = e.slice.value
+            e = e.value
+        ctx.require(isinstance(e, ast.Call) and (call_name(e) or '').startswith('_C.'),
+                    '%s: does not return (part of) a _C.* call: %s' % (name, src(ret[0].value)))
+        got_entry = call_name(e)[3:]
+        first = src(e.args[0]) if e.args else None
+        pos, _, _, _ = param_names(fn)
+        ok = (got_entry, got_index, got_method) == (entry, index, method) and first == pos[0]
+
+        def show(en, fi, ix, me):
+            return '_C.%s(%s, ...)%s%s' % (en, fi, '' if ix is None else '[%s]' % ix,
+                                           '' if me is None else '.%s()' % me)
         ctx.check(name + '/thin', ok,
-                  '%s is a thin wrapper: %s' % (name, rx.replace('\\', '')),
-                  '%s is no longer the thin wrapper `%s`: %s'
-                  % (name, rx.replace('\\', ''), src(ret[0].value) if ret else None), mod.loc(fn))
+                  '%s returns %s' % (name, show(entry, pos[0], index, method)),
+                  '%s returns %s, expected %s' % (name, show(got_entry, first, got_index, got_method),
+                                                  show(entry, pos[0], index, method)), mod.loc(fn))
     # flatten_with_path result order (paths, leaves, treespec) agrees with the engine's tuple
     prog = ctx.cxx()
     f = prog.one('PyTreeSpec::FlattenWithPath')
